@@ -365,6 +365,7 @@ type pair struct {
 var pairs = []pair{
 	{"P1", &P1{}, &P1v2{}, nil}, {"P2", &P2{}, &P2v2{}, nil}, {"P3", &P3{}, &P3v2{}, nil},
 	{"P4", &P4{}, &P4v2{}, nil}, {"P5", &P5{}, &P5v2{}, nil}, {"P6", &P6{}, &P6v2{}, []interface{}{&Owner{}}},
+	{"P7", &P7{}, &P7v2{}, nil},
 }
 
 type RoundIn struct {
@@ -859,6 +860,6 @@ func main() {
 		}
 		addDecide(kind, fi, ri)
 	}
-	out.Extra["rule"] = "cases = (a) decide: generated schema.Field (data type from a 24-word vocabulary with sizes/precisions/case/space variants, primary key, size, precision, not null, default value and DefaultValueInterface, time/bool/other, comment, unique, IgnoreMigration) x generated reported column type (type name related or unrelated, aliases, length/precision/nullable/default/comment/unique each with an ok flag) fed to the real Migrator.MigrateColumn with a recording migrator; (b) round: 6 hand-written model pairs (v1, v2 = v1 + fields/indexes/unique index/check constraints; sizes, not null, literal/bool/null defaults, times, bytes, embedded prefix, renamed column, json serializer, unique, check, composite key and index, foreign key) on real SQLite through the recording driver, with 0 and 3 rows; (c) reorder: ReorderModels on random subsets of 7 models with chain/diamond foreign keys. distinct = distinct input shapes; non-trivial = decision is alter or a unique change / rows present / more than one model"
+	out.Extra["rule"] = "cases = (a) decide: generated schema.Field (data type from a 24-word vocabulary with sizes/precisions/case/space variants, primary key, size, precision, not null, default value and DefaultValueInterface, time/bool/other, comment, unique, IgnoreMigration) x generated reported column type (type name related or unrelated, aliases, length/precision/nullable/default/comment/unique each with an ok flag) fed to the real Migrator.MigrateColumn with a recording migrator; (b) round: 7 hand-written model pairs (v1, v2 = v1 + fields/indexes/unique index/check constraints; sizes, not null, literal/bool/null defaults, times, bytes, embedded prefix, renamed column, json serializer, unique, check, composite key and index, foreign key) on real SQLite through the recording driver, with 0 and 3 rows; (c) reorder: ReorderModels on random subsets of 7 models with chain/diamond foreign keys. distinct = distinct input shapes; non-trivial = decision is alter or a unique change / rows present / more than one model"
 	lib.Must(out.Flush())
 }
